@@ -163,6 +163,36 @@ CHECKS['C04'] = (
     'from seeded patterns, not arbitrary reals.',
     'DESIGN.md section 6 C04')
 
+CHECKS['C05'] = (
+    'exhaustive enumeration of per-channel amplitude profiles x geometries x whitening x neighbourhood '
+    'x threshold x unwhiten x explicit lists, and of sparse column-table rows (space mode), every '
+    'returned record checked clause by clause against the stored arrays',
+    'Bounded exhaustive exploration: templates carrying every permutation of distinct amplitude levels '
+    'over 4 channels (24) and 6 channels (120 quick / 720 thorough, single- and two-shank), a rotating '
+    'family on a 14-channel probe, plus tie profiles; x whitening absent/identity/mixing x '
+    'n_closest_channels 12/2/3 x threshold None/0/0.5/1 x unwhiten x explicit channel lists (7.1e4 '
+    'get_template calls quick); sparse storage: every ordered row of 3 stored columns over 5 channels '
+    'with 0-2 entries -1 (some holding garbage) and an optional all-zero column. Clauses: distinct '
+    'channels, peak first, non-increasing amplitude, column j == template on channel j, amplitude j == '
+    'ptp of column j, exact channel set; accessors agree with the record.',
+    'No distance tie at the neighbourhood cut-off and no amplitude within 1e-4 of the threshold (else '
+    'the exact-set clause is dropped); unwhitened values compared with rtol 1e-5.',
+    'DESIGN.md section 6 C05')
+CHECKS['C06'] = (
+    'exhaustive enumeration of (data, column table, requested channels) triples and of ordered spike / '
+    'channel requests against generated feature stores (space mode); eigh-based PCA reference for '
+    'waveform-derived features',
+    'Bounded exhaustive exploration: from_sparse over every column table of 0-2 spikes x 1-3 stored '
+    'columns over {0,1,2,-1} x every repetition-free request of length 0..3 over {0,1,2,5} x trailing '
+    'dims x dtypes; get_features / get_template_features on 18 generated stores (all spikes / row '
+    'table / no column table, int32/uint32 ids) with every ordered subset of <= 3 of 6 spikes x every '
+    'ordered subset of <= 3 channels incl. an unknown one (1.05e5 queries quick); waveform-derived '
+    'features for every subset of 4-7 stored spikes against an independent eigh PCA, one sign per '
+    'component.',
+    'No repeated channel in a stored row; unstored spikes unconstrained; PCA cases with eigengap < 1e-6 '
+    'are counted as trivial and skipped.',
+    'DESIGN.md section 6 C06')
+
 NOT_YET = {}
 
 ALL = ['C%02d' % i for i in range(1, 21)]
